@@ -365,6 +365,7 @@ def lane_tie(rng, tier):
         for j, r in enumerate(rr["results"]):
             res[k + 8 * j] = r
     bad, n_lanes = [], 0
+    np.seterr(all="ignore")        # degenerate lanes (one element with ddof=1, zero variance) give inf/nan on both sides
     for t, r in zip(tasks, res):
         if "error" in r:
             bad.append({"kind": "lane tie: %s raised %s" % (t["fn"], r["error"]), "task": t})
